@@ -66,6 +66,7 @@ func printRun(h *HarnessRun, verbose bool) {
 	if h.Truncated {
 		fmt.Println("   TRUNCATED (budget)")
 	}
+	fmt.Printf("   queries by kind: %v\n", h.Solver.ByKind)
 	pm := func(title string, m map[string]int) {
 		if len(m) == 0 {
 			return
